@@ -437,6 +437,9 @@ func (m *Map) Keys() []string {
 		result[i] = key
 		i = i + 1
 	}
+	// Go map iteration is random: without an explicit order the keys are sorted, so that the result depends
+	// on the map's contents only
+	sort.Strings(result)
 
 	m.order = result
 
